@@ -120,7 +120,16 @@ def gen(rng, tier):
             feats = out_
         else:
             shared = None
+    tx_types = False
+    if not custom and not shared and any(f["cols"][2] == "transcript" for f in feats) and rng.random() < 0.4:
+        # files that call their transcript records mRNA / ncRNA, imported with an id_spec that keys those by transcript_id:
+        # such a line IS the transcript (never its own parent or child), whatever its featuretype says
+        tx_types = True
+        for f in feats:
+            if f["cols"][2] == "transcript":
+                f["cols"][2] = rng.choice(["mRNA", "ncRNA", "transcript"])
     return {"feats": feats, "custom": custom, "kw": kw, "form": rng.choice(["path", "string", "list", "gen"]), "shared": shared,
+            "tx_types": tx_types,
             "after": rng.choice(["none", "reopen", "restart", "restart"]), "fault": fault, "updates": updates, "pair": pair,
             "base_no_trailing_semicolon": rng.random() < 0.35,
             # no two lines of these inputs share a key, so every strategy must give the same database
@@ -199,8 +208,11 @@ def _pair(case, kw, id_spec, V, probes, journal, out):
             ns.append(w.node(lockstep_kinds=("fs.tmpname", "fs.open", "fs.close", "fs.unlink")))
 
         def req(i):
-            return {"op": "create", "h": "h", "db": "d%d/annotation.db" % i, "kw": dict(kw, merge_strategy="error"),
-                    "data": G.source_spec(None, inputs[i], form="path", d=G.DEFAULT_GTF, name="pair%d.gtf" % i)}
+            rq = {"op": "create", "h": "h", "db": "d%d/annotation.db" % i, "kw": dict(kw, merge_strategy="error"),
+                  "data": G.source_spec(None, inputs[i], form="path", d=G.DEFAULT_GTF, name="pair%d.gtf" % i)}
+            if case.get("tx_types"):
+                rq["id_spec"] = id_spec
+            return rq
 
         ph = lockstep(w, ns, req, rng, case["pair"]["policy"], None, journal, ())
         for i in range(2):
@@ -240,6 +252,9 @@ def run(case):
         id_spec = dict(id_spec, exon="exon_id")
         strategy0 = "merge"
         probes["exons_shared_between_transcripts"] = 1
+    if case.get("tx_types"):
+        id_spec = dict(id_spec, mRNA=model.gtf["transcript_key"], ncRNA=model.gtf["transcript_key"])
+        probes["transcript_records_typed_mRNA_keyed_by_transcript_id"] = 1
     model.import_gtf(case["feats"], strategy="merge" if case.get("shared") else "error", id_spec=id_spec)
     fault = case.get("fault")
     with World("c03_") as w:
@@ -252,7 +267,7 @@ def run(case):
         base_d = dict(G.DEFAULT_GTF, trail=False) if case.get("base_no_trailing_semicolon") else G.DEFAULT_GTF
         spec = G.source_spec(None, case["feats"], form=case["form"], d=base_d)
         req = {"op": "create", "h": "h", "db": "a.db", "data": spec, "kw": dict(kw, merge_strategy=strategy0)}
-        if case["custom"] or case.get("shared"):
+        if case["custom"] or case.get("shared") or case.get("tx_types"):
             req["id_spec"] = id_spec
         if fault:
             req["faults"] = [{"kind": fault["kind"], "nth": fault["nth"], "mode": fault["mode"]}]
